@@ -347,14 +347,20 @@ func (m *Mast) flush(ctx context.Context) (string, error) {
 		return nil, fmt.Errorf("unknown node format '%v'", m.nodeFormat)
 	}
 
-	str, err := node.store(ctx, m.persist, m.nodeCache, versionedMarshaler, storeQ)
+	var commits []func()
+	str, err := node.store(ctx, m.persist, m.nodeCache, versionedMarshaler, storeQ, &commits)
 	close(storeQ)
 	wg.Wait()
 	if err != nil {
 		return "", err
 	}
 	if firstStoreError != nil {
+		// nothing has been committed: the tree is exactly as it was, and a
+		// later flush writes every node that is still unwritten
 		return "", firstStoreError
+	}
+	for _, commit := range commits {
+		commit()
 	}
 	m.root = str
 	return str, nil
